@@ -249,6 +249,7 @@ func cmdCheck(args []string) int {
 	if *tier == "thorough" {
 		timeout = 60
 	}
+	timeout = scaledTimeout(timeout) // wall-clock limits stretched when the machine is oversubscribed (loadscale.go)
 	keys := p.functionsFor(id)
 	ledger := loadLedger(id)
 	findings := loadKnownFindings()
@@ -358,8 +359,10 @@ func cmdCheck(args []string) int {
 			retryIdx = append(retryIdx, i)
 		}
 	}
-	if len(retry) > 0 && len(retry) <= 24 {
-		dischargeAll(retry, filepath.Join(dir, "retry"), timeout*3, seed+1, 4)
+	if len(retry) > 0 && len(retry) <= 120 {
+		// generous second pass: the slowest blessed obligation needs about 20 s on an idle machine (a forall-exists loop
+		// invariant); at 3x the first-pass time it failed when the machine was heavily loaded
+		dischargeAll(retry, filepath.Join(dir, "retry"), timeout*6, seed+1, 4)
 		for j, i := range retryIdx {
 			retry[j].Res.Ms += items[i].Res.Ms
 			items[i].Res = retry[j].Res
